@@ -23,7 +23,7 @@ def install(w):
                ensures=INT_POST + ["num_eq(result, value)"],
                raises=["GraphQLError"],
                on_raise={"GraphQLError": ["not IntLike32(value)"]},
-               props={"C16", "C15", "C02"})
+               props={"C16", "C15", "C02", "C13"})
     w.contract(f"{M}.coerce_int_from_string", params={"value": "str"}, returns="int",
                ensures=INT_POST + ["is_int_str(value)", "int_of(result) == int_of_str(value)"],
                raises=["GraphQLError"],
@@ -47,13 +47,13 @@ def install(w):
                props={"C15", "C16"})
     w.contract(f"{M}.serialize_int", params={"output_value": "dyn"}, returns="int",
                ensures=INT_POST + ["implies(Numeric(output_value), num_eq(result, output_value))"],
-               raises=["GraphQLError"], props={"C16", "C02"})
+               raises=["GraphQLError"], props={"C16", "C02", "C13"})
     w.contract(f"{M}.coerce_int", params={"input_value": "dyn"}, returns="int",
                ensures=INT_POST + ["num_eq(result, input_value)",
                                    "is_int(input_value) or is_float(input_value)"],
                raises=["GraphQLError"],
                on_raise={"GraphQLError": ["not IntLike32(input_value)"]},
-               props={"C16", "C15"})
+               props={"C16", "C15", "C13"})
 
     # ---- Float -----------------------------------------------------------------------------
     FLOAT_POST = ["is_finite_float(result)"]
@@ -61,7 +61,7 @@ def install(w):
                requires=["is_float(value)"],
                ensures=FLOAT_POST + ["num_eq(result, value)"], raises=["GraphQLError"],
                on_raise={"GraphQLError": ["not is_finite_float(value)"]},
-               props={"C16", "C15", "C02"})
+               props={"C16", "C15", "C02", "C13"})
     w.contract(f"{M}.coerce_float_from_int", params={"value": "dyn"}, returns="dyn",
                requires=["is_int(value) or is_bool(value)"],
                # exactness: an int never comes out as a different number
@@ -74,13 +74,13 @@ def install(w):
                ensures=["is_finite_float(result) or (is_bool(output_value) and is_int(result)"
                         " and 0 <= int_of(result) <= 1)",
                         "implies(Numeric(output_value), num_eq(result, output_value))"],
-               raises=["GraphQLError"], props={"C16", "C02"})
+               raises=["GraphQLError"], props={"C16", "C02", "C13"})
     w.contract(f"{M}.coerce_float", params={"input_value": "dyn"}, returns="dyn",
                ensures=FLOAT_POST + ["num_eq(result, input_value)"], raises=["GraphQLError"],
                on_raise={"GraphQLError": [
                    "not (is_finite_float(input_value) or (is_int(input_value) and"
                    " -9007199254740992 <= int_of(input_value) <= 9007199254740992))"]},
-               props={"C16", "C15"})
+               props={"C16", "C15", "C13"})
 
     # literal coercion of Float: an Int or Float token whose text denotes a finite double
     for n_ in ("FloatValueNode", "StringValueNode", "BooleanValueNode"):
@@ -136,7 +136,11 @@ def install(w):
                ensures=["is_bool(result)", "same(result, input_value)"], raises=["GraphQLError"],
                on_raise={"GraphQLError": ["not is_bool(input_value)"]}, props={"C16", "C15"})
     w.contract(f"{M}.coerce_id_from_number", params={"value": "dyn"}, returns="str",
-               requires=["Numeric(value)"], ensures=["is_str(result)"],
+               requires=["Numeric(value)"],
+               # exact: the decimal text of the integer itself (no detour through a double)
+               ensures=["is_str(result)",
+                        "implies(is_int(value), result == str_of_int(int_of(value)))",
+                        "implies(is_integral_float(value), result == str_of_int(float_int_of(value)))"],
                # str(int) raises ValueError above the interpreter's digit limit
                raises=["GraphQLError", "ValueError"], props={"C16", "C15", "C02"})
     w.contract(f"{M}.serialize_id", params={"output_value": "dyn"}, returns="dyn",
